@@ -5,8 +5,38 @@
    (stw_dead_edges_unreachable). *)
 Require Import List Bool Arith Lia.
 Require Import IW.CC.Lts IW.CC.Lts_proofs IW.CC.Cover.
-Require IW.CC.Stw IW.CC.Tp IW.CC.Stw_proofs IW.CC.Tp_proofs.
+Require IW.CC.Stw IW.CC.Tp.
 Import ListNotations.
+
+(* The case-analysis tactics are those of Stw_proofs.v / Tp_proofs.v, repeated here so that this file depends on the
+   models only; StwCover.R / TpCover.R are the same definitions as Stw_proofs.R / Tp_proofs.R (convertible). *)
+Ltac dcase H :=
+  repeat match type of H with
+  | context [match ?x with _ => _ end] =>
+      let E := fresh "E" in destruct x eqn:E; try discriminate H
+  end.
+
+Ltac norm_hyps :=
+  repeat match goal with
+  | H : owns _ _ = true |- _ => apply owns_true in H
+  | H : free_mtx _ = true |- _ => apply free_true in H
+  | H : is_nil _ = true |- _ => apply is_nil_true in H
+  | H : is_nil _ = false |- _ => apply is_nil_false in H
+  | H : (_ && _) = true |- _ => apply andb_true_iff in H; destruct H
+  | H : (_ && _) = false |- _ => apply andb_false_iff in H; destruct H
+  | H : (_ || _) = true |- _ => apply orb_true_iff in H; destruct H
+  | H : (_ || _) = false |- _ => apply orb_false_iff in H; destruct H
+  | H : (_ =? _) = true |- _ => apply Nat.eqb_eq in H
+  | H : (_ =? _) = false |- _ => apply Nat.eqb_neq in H
+  | H : (_ <? _) = true |- _ => apply Nat.ltb_lt in H
+  | H : (_ <? _) = false |- _ => apply Nat.ltb_ge in H
+  | H : (_ <=? _) = true |- _ => apply Nat.leb_le in H
+  | H : (_ <=? _) = false |- _ => apply Nat.leb_gt in H
+  | H : negb _ = true |- _ => apply negb_true_iff in H
+  | H : negb _ = false |- _ => apply negb_false_iff in H
+  | H : memb _ _ = false |- _ => apply memb_false in H
+  | H : memb _ _ = true |- _ => apply memb_true in H
+  end.
 
 (* ---- edges: decidable membership ---- *)
 Lemma edge_eqb_eq : forall a b, edge_eqb a b = true <-> a = b.
@@ -58,7 +88,28 @@ End Sound.
 
 (* ======================= iwstw ======================= *)
 Module StwCover.
-Import IW.CC.Stw IW.CC.Stw_proofs.
+Import IW.CC.Stw.
+
+Definition R (c : cfg) (s : st) : Prop := reachable st (step c) init s.
+
+Ltac wcases H := unfold wstep in H; dcase H; norm_hyps; inversion H; subst; clear H.
+Ltac ccases H :=
+  unfold cstep, locked_step, loop_step, odisc_step, ddisc_step, unlock_ret in H; cbv zeta in H;
+  dcase H; norm_hyps; inversion H; subst; clear H.
+Ltac scases H t :=
+  unfold step in H; destruct (Nat.eqb_spec t W) as [EW|EW]; [subst t; wcases H | ccases H].
+Ltac rw_facts :=
+  repeat match goal with
+  | H : owner _ = _ |- _ => rewrite H in *
+  | H : queue _ = _ |- _ => rewrite H in *
+  | H : cp (cl _ _) = _ |- _ => rewrite H in *
+  | H : wpc _ = _ |- _ => rewrite H in *
+  end.
+Ltac per_thread u :=
+  simpl in *; unfold upd in *;
+  try (match goal with |- context [u =? ?t] => destruct (Nat.eqb_spec u t); [subst u|] end);
+  try (match goal with H : context [u =? ?t] |- _ => destruct (Nat.eqb_spec u t); [subst u|] end);
+  simpl in *.
 
 Definition stw_edge_set : list edge := Eval vm_compute in edge_nodup stw_edges.
 
@@ -121,7 +172,7 @@ Definition Icfg (c : cfg) (s : st) : Prop := forall u, u <> W -> cfg_ok c (cl s 
 Lemma Icfg_step : forall c s t e s', Icfg c s -> step c s t e = Some s' -> Icfg c s'.
 Proof.
   intros c s t e s' I H. unfold Icfg in *. assert (It := I t).
-  scases H t; intros u Hu; specialize (I u Hu); unfold cfg_ok in *; per_thread I u Hu; rw_facts; auto;
+  scases H t; intros u Hu; specialize (I u Hu); unfold cfg_ok in *; per_thread u; rw_facts; auto;
     try (specialize (It EW)); rw_facts; auto.
 Qed.
 
@@ -182,6 +233,53 @@ Proof.
   apply stw_witness_sound. exact Hin.
 Qed.
 
+(* ---- the current variant of the code (recheck = true) ---- *)
+Lemma stw_fixed_sound : forall e, In e stw_edges_fixed ->
+  exists c s t ev s', recheck c = true /\ R c s /\ step c s t ev = Some s' /\ stw_edge c s t ev s' = e.
+Proof.
+  intros e H. unfold stw_edges_fixed in H. apply in_flat_map in H. destruct H as [[c tr] [Hw H]]. simpl in H.
+  apply filter_In in Hw. destruct Hw as [_ Hc]. simpl in Hc.
+  unfold stw_edges_of_run in H. apply (edges_run_sound st (step c) (stw_edge c) init) in H; [|apply reachable_init].
+  destruct H as (s & t & ev & s' & A & B & C). exists c, s, t, ev, s'. auto.
+Qed.
+
+Lemma stw_fixed_covers : forall e, In e stw_edges -> In e stw_edges_fixed \/ In e stw_variant_edges.
+Proof.
+  intros e H.
+  assert (X : forallb (fun d => edge_mem d (edge_nodup stw_edges_fixed) || edge_mem d stw_variant_edges) stw_edge_set = true)
+    by (vm_compute; reflexivity).
+  rewrite forallb_forall in X. specialize (X e). rewrite stw_edge_set_eq in X.
+  specialize (X (proj2 (edge_nodup_In e stw_edges) H)). apply orb_true_iff in X.
+  destruct X as [X|X]; [left|right]; apply edge_mem_In in X; [exact (proj1 (edge_nodup_In e stw_edges_fixed) X)|exact X].
+Qed.
+
+(* no state at all takes them when the re-check is present *)
+Theorem stw_variant_edges_unreachable : forall c s t ev s', recheck c = true -> step c s t ev = Some s' ->
+  ~ In (stw_edge c s t ev s') stw_variant_edges.
+Proof.
+  intros c s t ev s' Hc H Hin. apply edge_mem_In in Hin. revert Hin.
+  edge_cases H; fin; intros X; try discriminate X; rewrite Hc in *; simpl in *; congruence.
+Qed.
+
+Lemma stw_variant_edges_live : forall e, In e stw_variant_edges -> In e stw_edges /\ ~ In e stw_edges_fixed.
+Proof.
+  intros e H.
+  assert (X : forallb (fun d => edge_mem d stw_edge_set && negb (edge_mem d (edge_nodup stw_edges_fixed))) stw_variant_edges = true)
+    by (vm_compute; reflexivity).
+  rewrite forallb_forall in X. specialize (X e H). apply andb_true_iff in X. destruct X as [X1 X2]. split.
+  - apply stw_edge_set_In. exact X1.
+  - apply negb_true_iff, edge_mem_false in X2. intros Hin. apply X2. exact (proj2 (edge_nodup_In e stw_edges_fixed) Hin).
+Qed.
+
+Theorem stw_no_dead_transition_fixed : forall c s t ev s', step c s t ev = Some s' ->
+  ~ In (stw_edge c s t ev s') stw_dead_edges -> ~ In (stw_edge c s t ev s') stw_variant_edges ->
+  exists c0 s0 t0 ev0 s0', recheck c0 = true /\ R c0 s0 /\ step c0 s0 t0 ev0 = Some s0' /\
+    stw_edge c0 s0 t0 ev0 s0' = stw_edge c s t ev s'.
+Proof.
+  intros c s t ev s' H Hd Hv. destruct (stw_edges_complete c s t ev s' H) as [Hin|Hin]; [|contradiction].
+  destruct (stw_fixed_covers _ Hin) as [Hf|Hf]; [|contradiction]. apply stw_fixed_sound. exact Hf.
+Qed.
+
 (* (d) *)
 Lemma stw_edge_count : length (edge_nodup stw_edges) = 63 /\ length stw_dead_edges = 4 /\ length stw_witness = 26.
 Proof. vm_compute. repeat split; reflexivity. Qed.
@@ -189,7 +287,23 @@ End StwCover.
 
 (* ======================= iwtp ======================= *)
 Module TpCover.
-Import IW.CC.Tp IW.CC.Tp_proofs.
+Import IW.CC.Tp.
+
+Definition R (c : cfg) (s : st) : Prop := reachable st (step c) (init c) s.
+
+Ltac tcases H := unfold step, unlock_to in H; cbv zeta in H; dcase H; norm_hyps; inversion H; subst; clear H.
+Ltac rw_facts :=
+  repeat match goal with
+  | H : owner _ = _ |- _ => rewrite H in *
+  | H : queue _ = _ |- _ => rewrite H in *
+  | H : pc (th _ _) = _ |- _ => rewrite H in *
+  end.
+Ltac thr_cases u :=
+  simpl in *; unfold upd in *;
+  repeat match goal with
+  | H : context [u =? ?a] |- _ => destruct (Nat.eqb_spec u a); [subst u|]
+  | |- context [u =? ?a] => destruct (Nat.eqb_spec u a); [subst u|]
+  end; simpl in *.
 
 Definition tp_edge_set : list edge := Eval vm_compute in edge_nodup tp_edges.
 
@@ -237,6 +351,77 @@ Theorem tp_no_dead_transition : forall c s t ev s', step c s t ev = Some s' ->
   exists c0 s0 t0 ev0 s0', R c0 s0 /\ step c0 s0 t0 ev0 = Some s0' /\ tp_edge c0 s0 t0 ev0 s0' = tp_edge c s t ev s'.
 Proof. intros c s t ev s' H. apply tp_witness_sound. eapply tp_edges_complete; exact H. Qed.
 
+(* ---- the current variant of the code (chk = true, reg = true) ---- *)
+Lemma tp_fixed_sound : forall e, In e tp_edges_fixed ->
+  exists c s t ev s', chk c = true /\ reg c = true /\ R c s /\ step c s t ev = Some s' /\ tp_edge c s t ev s' = e.
+Proof.
+  intros e H. unfold tp_edges_fixed in H. apply in_flat_map in H. destruct H as [[c tr] [Hw H]]. simpl in H.
+  apply filter_In in Hw. destruct Hw as [_ Hc]. simpl in Hc. apply andb_true_iff in Hc. destruct Hc as [Hc1 Hc2].
+  unfold tp_edges_of_run in H. apply (edges_run_sound st (step c) (tp_edge c) (init c)) in H; [|apply reachable_init].
+  destruct H as (s & t & ev & s' & A & B & C). exists c, s, t, ev, s'. auto.
+Qed.
+
+Lemma tp_fixed_covers : forall e, In e tp_edges -> In e tp_edges_fixed \/ In e tp_variant_edges.
+Proof.
+  intros e H.
+  assert (X : forallb (fun d => edge_mem d (edge_nodup tp_edges_fixed) || edge_mem d tp_variant_edges) tp_edge_set = true)
+    by (vm_compute; reflexivity).
+  rewrite forallb_forall in X. specialize (X e). rewrite tp_edge_set_eq in X.
+  specialize (X (proj2 (edge_nodup_In e tp_edges) H)). apply orb_true_iff in X.
+  destruct X as [X|X]; [left|right]; apply edge_mem_In in X; [exact (proj1 (edge_nodup_In e tp_edges_fixed) X)|exact X].
+Qed.
+
+Lemma tp_variant_edges_live : forall e, In e tp_variant_edges -> In e tp_edges /\ ~ In e tp_edges_fixed.
+Proof.
+  intros e H.
+  assert (X : forallb (fun d => edge_mem d tp_edge_set && negb (edge_mem d (edge_nodup tp_edges_fixed))) tp_variant_edges = true)
+    by (vm_compute; reflexivity).
+  rewrite forallb_forall in X. specialize (X e H). apply andb_true_iff in X. destruct X as [X1 X2]. split.
+  - apply tp_edge_set_In. exact X1.
+  - apply negb_true_iff, edge_mem_false in X2. intros Hin. apply X2. exact (proj2 (edge_nodup_In e tp_edges_fixed) Hin).
+Qed.
+
+(* with the registration every thread created with _worker_fn that has not yet looked itself up is in tp->threads *)
+Definition Ireg (c : cfg) (s : st) : Prop :=
+  reg c = true -> forall u, pc (th s u) = TStart \/ pc (th s u) = TReg -> In u (regs s).
+
+Lemma Ireg_step : forall c s t e s', Ireg c s -> step c s t e = Some s' -> Ireg c s'.
+Proof.
+  intros c s t e s' I H. unfold Ireg in *. intros Hr. specialize (I Hr).
+  tcases H; intros u Hu; assert (Iu := I u); thr_cases u; rw_facts; auto;
+    try (destruct Hu as [Hu|Hu]; discriminate Hu); try congruence;
+    try (apply in_or_app; simpl; auto; fail);
+    try (apply in_or_app; left; auto; fail).
+  - apply remove_first_keeps; auto.
+Qed.
+
+Lemma Ireg_R : forall c s, R c s -> Ireg c s.
+Proof.
+  intros c s H. eapply invariant_reachable; [|apply Ireg_step|exact H].
+  intros _ u Hu. simpl in *. destruct (Nat.ltb_spec u (nthreads c)) as [L|G].
+  - apply in_seq. lia.
+  - simpl in Hu. destruct Hu as [Hu|Hu]; discriminate Hu.
+Qed.
+
+Theorem tp_variant_edges_unreachable : forall c s t ev s', chk c = true -> reg c = true -> R c s ->
+  step c s t ev = Some s' -> ~ In (tp_edge c s t ev s') tp_variant_edges.
+Proof.
+  intros c s t ev s' Hc Hg HR H Hin. apply edge_mem_In in Hin. revert Hin. assert (I := Ireg_R c s HR Hg t).
+  unfold tp_edge, tp_aux, tp_fn.
+  unfold step, unlock_to in H; cbv zeta in H; cbv zeta; dcase H; inversion H; subst; clear H; unfold set_thr, upd; fin;
+    intros X; try discriminate X; rewrite ?Hc, ?Hg in *; simpl in *; try congruence.
+  apply find_first_none in E2. apply E2, I. right. reflexivity.
+Qed.
+
+Theorem tp_no_dead_transition_fixed : forall c s t ev s', step c s t ev = Some s' ->
+  ~ In (tp_edge c s t ev s') tp_variant_edges ->
+  exists c0 s0 t0 ev0 s0', chk c0 = true /\ reg c0 = true /\ R c0 s0 /\ step c0 s0 t0 ev0 = Some s0' /\
+    tp_edge c0 s0 t0 ev0 s0' = tp_edge c s t ev s'.
+Proof.
+  intros c s t ev s' H Hv. assert (Hin := tp_edges_complete c s t ev s' H).
+  destruct (tp_fixed_covers _ Hin) as [Hf|Hf]; [|contradiction]. apply tp_fixed_sound. exact Hf.
+Qed.
+
 Lemma tp_edge_count : length (edge_nodup tp_edges) = 47 /\ length tp_witness = 15.
 Proof. vm_compute. repeat split; reflexivity. Qed.
 End TpCover.
@@ -249,10 +434,16 @@ Definition stw_dead_edges_syntactic := StwCover.stw_dead_edges_syntactic.
 Definition stw_dead_edges_disjoint := StwCover.stw_dead_edges_disjoint.
 Definition stw_no_dead_transition := StwCover.stw_no_dead_transition.
 Definition stw_edge_count := StwCover.stw_edge_count.
+Definition stw_variant_edges_unreachable := StwCover.stw_variant_edges_unreachable.
+Definition stw_variant_edges_live := StwCover.stw_variant_edges_live.
+Definition stw_no_dead_transition_fixed := StwCover.stw_no_dead_transition_fixed.
 Definition tp_witness_sound := TpCover.tp_witness_sound.
 Definition tp_edges_complete := TpCover.tp_edges_complete.
 Definition tp_no_dead_transition := TpCover.tp_no_dead_transition.
 Definition tp_edge_count := TpCover.tp_edge_count.
+Definition tp_variant_edges_unreachable := TpCover.tp_variant_edges_unreachable.
+Definition tp_variant_edges_live := TpCover.tp_variant_edges_live.
+Definition tp_no_dead_transition_fixed := TpCover.tp_no_dead_transition_fixed.
 
 Print Assumptions stw_witness_sound.
 Print Assumptions stw_edges_complete.
@@ -265,3 +456,9 @@ Print Assumptions tp_witness_sound.
 Print Assumptions tp_edges_complete.
 Print Assumptions tp_no_dead_transition.
 Print Assumptions tp_edge_count.
+Print Assumptions stw_variant_edges_unreachable.
+Print Assumptions stw_variant_edges_live.
+Print Assumptions stw_no_dead_transition_fixed.
+Print Assumptions tp_variant_edges_unreachable.
+Print Assumptions tp_variant_edges_live.
+Print Assumptions tp_no_dead_transition_fixed.
